@@ -530,6 +530,14 @@ def generate(rng, o=None, nblocks=None):
     bs = gen_blocks(rng, o, 0, nblocks or rng.randint(1, 6))
     w = Writer(rng, o)
     lines = w.blocks(bs, False)
+    # a blank line may be spelled with spaces (spec 2.1: "a line containing no characters, or a line containing only spaces or
+    # tabs, is called a blank line"): one top-level separator in twelve is 1-6 spaces
+    for blk in bs[1:]:
+        j = blk.rel - 1
+        while j >= 0 and lines[j] == '':
+            if rng.random() < 0.085:
+                lines[j] = ' ' * rng.choice([1, 2, 3, 4, 4, 6])
+            j -= 1
     lead = rng.randint(0, 2) if (o.leading_blank_lines and rng.random() < 0.2) else 0
     assign_lines(bs, 1 + lead)
     text = '\n' * lead + '\n'.join(lines) + '\n'
